@@ -80,6 +80,8 @@ func ruleWriteClass(c *Ctx) {
 				eff = append(eff, persistEffects(c, h)...)
 			}
 			switch {
+			case ct.DevOnly[cl]:
+				c.ok(key, cl.Clause.Pos(), true, "developer-mode command: refused as unknown unless Options.DevMode")
 			case len(eff) == 0:
 				c.ok(key, cl.Clause.Pos(), false, "handlers %s write no persistent location", handlerNames(ct.Handlers[cl]))
 			case evalFamily[cmd]:
